@@ -66,6 +66,7 @@ type Contract struct {
 	Decl    *ast.FuncDecl
 	Clause  *ast.CaseClause // for clause units
 	IdxAsserts []*IdxAssert // `idxassert BASE LO HI`
+	Claims     []*Clause    // `claim[Cxx] TEXT`
 	MapLoop bool            // map-range unit (maprange.go)
 	Frame   string          // frame unit T.f (frame.go)
 	ResVars []string
@@ -370,6 +371,8 @@ func parseContractsData(data []byte, file string, pkgPath string) ([]*Contract, 
 				return nil, fmt.Errorf("%s:%d: %v", file, ln+1, err)
 			}
 			parsedFolds[pkgPath] = append(parsedFolds[pkgPath], fd)
+		case "claim":
+			cur.Claims = append(cur.Claims, &Clause{Kind: "claim", Prop: prop, Text: strings.ReplaceAll(rest, " ", ""), Line: ln + 1})
 		case "idxassert":
 			// `idxassert[Cxx] BASE LO HI`: every index expression BASE[i] of the unit has LO <= i < HI (integer constants).
 			// Used where the bound that matters is that of the operand encoding (an index decoded from an 8-bit operand
